@@ -64,12 +64,22 @@ class _Ppf:
         return self.lo + (self.hi - self.lo) * u
 
 
-def build(spec):
-    """spec = {'cls': name, 'p': {...}} -> instance of the implementation's class."""
+def build(spec, watch=None, cform='list'):
+    """spec = {'cls': name, 'p': {...}} -> instance of the implementation's class.
+    watch: a Watch; the sequence arguments of the constructors (coefficients, midpoints, borders ...) are then created as
+    objects of their own (lists, or float64 arrays for cform='ndarray'), kept and snapshotted: no later library call may
+    modify them."""
     import numpy as np
     import sparseSpACE.Function as F
-    c, p = spec['cls'], spec.get('p', {})
-    sub = lambda k: build(p[k])
+    c, p0 = spec['cls'], spec.get('p', {})
+    p = dict(p0)
+    if watch is not None:
+        for k_ in ('coeffs', 'mid', 'border', 'mean', 'std', 'a', 'b', 'norms'):
+            if isinstance(p.get(k_), list):
+                p[k_] = np.array(p[k_], dtype=float) if cform == 'ndarray' else list(p[k_])
+                watch.add('constructor-argument:%s.%s' % (c, k_), p[k_])
+    build_ = lambda s_: build(s_, watch, cform)
+    sub = lambda k: build_(p[k])
     if c == 'ConstantValue': return F.ConstantValue(p['value'])
     if c == 'FunctionDiagonalDiscont': return F.FunctionDiagonalDiscont()
     if c == 'FunctionShift':
@@ -85,7 +95,7 @@ def build(spec):
     if c == 'FunctionUQ': return F.FunctionUQ()
     if c == 'FunctionUQShifted': return F.FunctionUQShifted()
     if c == 'FunctionUQ2': return F.FunctionUQ2()
-    if c == 'FunctionCompose': return F.FunctionCompose([(build(s), w) for s, w in p['fs']])
+    if c == 'FunctionCompose': return F.FunctionCompose([(build_(s), w) for s, w in p['fs']])
     if c == 'FunctionLinear': return F.FunctionLinear(p['coeffs'])
     if c == 'FunctionMultilinear': return F.FunctionMultilinear(p['coeffs'])
     if c == 'FunctionPower': return F.FunctionPower(sub('f'), p['exponent'])
@@ -95,7 +105,7 @@ def build(spec):
     if c == 'FunctionCustom':
         fn = [LAMBDAS[n] for n in p['fns']] if 'fns' in p else LAMBDAS[p['fn']]
         return F.FunctionCustom(fn, output_dim=p.get('odim'))
-    if c == 'FunctionConcatenate': return F.FunctionConcatenate([build(s) for s in p['fs']])
+    if c == 'FunctionConcatenate': return F.FunctionConcatenate([build_(s) for s in p['fs']])
     if c == 'FunctionPolynomial': return F.FunctionPolynomial(p['coeffs'], degree=p['degree'])
     if c == 'LambdaFunction': return F.LambdaFunction(LAMBDAS[p['fn']], LAMBDAS[p['fn'] + '_anti'])
     if c == 'Polynomial1d': return F.Polynomial1d(p['coeffs'])
@@ -109,6 +119,41 @@ def build(spec):
     if c == 'FunctionExpVar': return F.FunctionExpVar()
     if c == 'FunctionGeneralizedNormal': return F.FunctionGeneralizedNormal(p['mid'], p['coeffs'], p['exp'])
     raise KeyError(c)
+
+
+SENTINEL = -12345.6789       # written into returned arrays ("scribble"): must never show up in a later result
+
+
+class Watch:
+    """Argument objects handed to the library (constructor sequences, points, point arrays, box corners): a snapshot of the
+    value of each is kept; check() names those whose value has changed since (and re-snapshots them)."""
+
+    def __init__(self):
+        self.items = []
+
+    @staticmethod
+    def snap(o):
+        import numpy as np
+        if isinstance(o, np.ndarray):
+            return ('ndarray', str(o.dtype), tuple(o.shape), o.ravel().tolist())
+        if isinstance(o, (list, tuple)):
+            return (type(o).__name__, [Watch.snap(x) for x in o])
+        return (type(o).__name__, float(o))
+
+    def add(self, label, obj):
+        if not any(o is obj for _l, o, _s in self.items):
+            self.items.append([label, obj, Watch.snap(obj)])
+        return obj
+
+    def check(self):
+        changed = []
+        for it in self.items:
+            now = Watch.snap(it[1])
+            if now != it[2]:
+                changed.append({'argument': it[0], 'container': it[2][0] + (':' + it[2][1] if it[2][0] == 'ndarray' else ''),
+                                'before': str(it[2][-1])[:160], 'after': str(now[-1])[:160]})
+                it[2] = now
+        return changed
 
 
 # ------------------------------------------------------------------------------------------------ generators
@@ -270,7 +315,8 @@ def gen_fn(rng, d, cls=None, for_integral=False, depth=0):
         for _ in range(rng.randrange(1, 4)):
             inner, _ = gen_fn(rng, d, rng.choice(['FunctionLinear', 'GenzGaussian', 'FunctionPolynomial', 'FunctionMultilinear',
                                                   'GenzOszillatory', 'ConstantValue'] if not for_integral else
-                                                 ['FunctionLinear', 'GenzGaussian', 'FunctionPolynomial', 'GenzC0']), depth=1)
+                                                 ['FunctionLinear', 'GenzGaussian', 'FunctionPolynomial', 'GenzC0', 'GenzDiscontinious',
+                                                  'GenzOszillatory']), depth=1)
             fs.append([inner, rng.choice([1.0, -0.5, 2.0, 0.25])])
         p = {'fs': fs}
     elif cls == 'FunctionPower':
@@ -335,6 +381,15 @@ def _form(rng, pts, single):
         return f if f != 'int' or _integral_pt(pts) else 'tuple'
     f = rng.choice(['tuple', 'tuple', 'tuple', 'list', 'ndarray', 'tot', 'intarray'])
     return f if f != 'intarray' or all(_integral_pt(p) for p in pts) else 'ndarray'
+
+
+def _arg_axes(rng, c):
+    """How the caller treats argument and result objects: constructor sequences as lists or float64 arrays; in a share of the
+    cases the caller overwrites every array it gets back."""
+    c['cform'] = rng.choice(['list', 'ndarray'])
+    if rng.random() < 0.15:
+        c['scribble'] = True
+    return c
 
 
 def gen_cache_case(rng, cls=None, multidim=None, big=None, multiobj=None, debug=None):
@@ -423,7 +478,7 @@ def gen_cache_case(rng, cls=None, multidim=None, big=None, multiobj=None, debug=
     c = {'kind': 'cache', 'fn': fn, 'dim': d, 'ops': ops}
     if len(fns) > 1:
         c['fns'] = fns
-    return c
+    return _arg_axes(rng, c)
 
 
 SCALAR_RETURNING = ['FunctionLinear', 'FunctionMultilinear', 'FunctionPolynomial', 'GenzCornerPeak', 'GenzGaussian', 'ConstantValue',
@@ -467,7 +522,7 @@ def gen_structured_case(rng, pattern=None, cls=None):
         ops = [S(p) for p in pts] + [S(p) for p in pts] + [B(pts), B(pts), ['size'], ['vec', [list(p) for p in pts]], B(pts)]
     if rng.random() < 0.15:
         ops.insert(rng.randrange(len(ops)), ['deact'])
-    return {'kind': 'cache', 'fn': fn, 'dim': d, 'ops': ops, 'pattern': pattern}
+    return _arg_axes(rng, {'kind': 'cache', 'fn': fn, 'dim': d, 'ops': ops, 'pattern': pattern})
 
 
 def gen_xdim_case(rng, pattern=None, cls=None):
@@ -497,7 +552,7 @@ def gen_xdim_case(rng, pattern=None, cls=None):
         c['fns'] = [fn, fn if rng.random() < 0.5 else gen_free_fn(rng, cls)[0]]
         ops = [B(p1), ['obj', 1], B(p2), ['size'], ['obj', 0], ['size'], B(p2), ['obj', 1], B(p1)] + [S(p) for p in p1] + [['size']]
     c['ops'] = ops
-    return c
+    return _arg_axes(rng, c)
 
 
 INTEGRAL_CLASSES = ['ConstantValue', 'FunctionDiagonalDiscont', 'FunctionG', 'FunctionGShifted', 'FunctionLinear',
@@ -549,6 +604,20 @@ def _fix_expvar_box(box):
     return [a, [y if y >= x else x + 0.125 for x, y in zip(a, b)]]
 
 
+COMPANIONS = ['GenzGaussian', 'GenzDiscontinious', 'GenzC0', 'FunctionLinear', 'GenzOszillatory', 'GenzCornerPeak', 'GenzProductPeak',
+              'FunctionMultilinear', 'ConstantValue', 'FunctionExpVar']
+
+
+def _int_arg_axes(rng, c):
+    """The caller's argument objects: box corners and points as lists / tuples / float64 arrays / integer arrays, ONE object per
+    distinct corner reused by all calls of the history; constructor sequences as lists or float64 arrays."""
+    c['bform'] = rng.choice(['list', 'tuple', 'ndarray', 'ndarray', 'ndarray', 'intarray'])
+    c['cform'] = rng.choice(['list', 'ndarray'])
+    if rng.random() < 0.15:
+        c['scribble'] = True
+    return c
+
+
 def gen_integral_case(rng, cls=None, multidim=None, force_d=None):
     """A HISTORY on one object: evaluations, then analytic integrals over several boxes (for dimension-free classes of
     different dimension; boxes sharing the lower or the upper corner; a repeated box; a degenerate box), then the
@@ -592,8 +661,8 @@ def gen_integral_case(rng, cls=None, multidim=None, force_d=None):
         a = [rng.choice(lat[:2]) for _ in range(d)]
         b = [rng.choice([y for y in lat if y > x]) for x in a]
         pts = [[dy(rng, 0.0, 1.0) for _ in range(d)] for _ in range(2)]
-        return {'kind': 'integral', 'fn': fn, 'dim': d, 'boxes': [[a, b]] + ([[[0.0 if cls != 'FunctionExpVar' else 0.25] * d, [1.0] * d]] if rng.random() < 0.3 else []),
-                'points': pts}
+        return _int_arg_axes(rng, {'kind': 'integral', 'fn': fn, 'dim': d, 'boxes': [[a, b]] + ([[[0.0 if cls != 'FunctionExpVar' else 0.25] * d, [1.0] * d]] if rng.random() < 0.3 else []),
+                                   'points': pts})
     boxes = []
     for k in dims:
         if cls in UNIT_CUBE_ONLY:
@@ -617,7 +686,11 @@ def gen_integral_case(rng, cls=None, multidim=None, force_d=None):
     if len(boxes) > 1 and rng.random() < 0.35 and len(boxes[0][0]) <= 2:
         boxes.append([list(boxes[0][0]), list(boxes[0][1])])          # the first box once more, at the end of the history
     pts = [[dy(rng, dom[0], dom[1]) for _ in range(k)] for k in dims for _ in range(3 if len(dims) == 1 else 2)]
-    return {'kind': 'integral', 'fn': fn, 'dim': dims[0], 'boxes': boxes, 'points': pts}
+    c = {'kind': 'integral', 'fn': fn, 'dim': dims[0], 'boxes': boxes, 'points': pts}
+    if len(dims) == 1 and dims[0] <= 3 and cls not in UNIT_CUBE_ONLY + SCIPY_QUAD and rng.random() < 0.5:
+        # other functions integrated over the SAME corner objects, after the function of the case
+        c['companions'] = [gen_fn(rng, dims[0], rng.choice(COMPANIONS), for_integral=True)[0] for _ in range(rng.choice([1, 1, 2]))]
+    return _int_arg_axes(rng, c)
 
 
 # ------------------------------------------------------------------------------------------------ implementation workers
@@ -682,24 +755,41 @@ def _calls_check(cls):
 def impl_cache(case):
     import numpy as np
     specs = case_specs(case)
-    objs = [build(s) for s in specs]         # all objects of the case are alive during the whole history
+    watch = Watch()
+    cform = case.get('cform', 'list')
+    objs = [build(s, watch, cform) for s in specs]         # all objects of the case are alive during the whole history
+    scribble = bool(case.get('scribble'))
     cur = 0
     out = []
-    val = lambda r: {'st': 'ok', 'shape': list(np.shape(r)), 'vals': [float(x) for x in np.asarray(r, dtype=float).ravel()]}
+    args = {}                  # ARGUMENT OBJECTS ARE REUSED: the same points in the same form are the same Python object
+
+    def arg(kind, form, pts, make):
+        key = (kind, form, repr(pts))
+        if key not in args:
+            args[key] = watch.add('%s-argument(%s)' % (kind, form), make())
+        return args[key]
+
+    def val(r):
+        rec = {'st': 'ok', 'shape': list(np.shape(r)), 'vals': [float(x) for x in np.asarray(r, dtype=float).ravel()]}
+        if scribble and isinstance(r, np.ndarray) and r.size and r.flags.writeable:
+            r[...] = SENTINEL              # the caller overwrites the array it got back: no later result may change
+            rec['scribbled'] = True
+        return rec
     for op in case['ops']:
         k = op[0]
         f = objs[cur]
         rec = {}
         try:
             if k == 'single':
-                rec = val(f(_as_form(np, op[1], op[2], len(op[1]), True)))
+                rec = val(f(arg('point', op[2], op[1], lambda: _as_form(np, op[1], op[2], len(op[1]), True))))
             elif k == 'batch':
-                rec = val(f(_as_form(np, op[1], op[2], len(op[1][0]) if op[1] else case['dim'], False)))
-            elif k == 'vec':
                 d = len(op[1][0]) if op[1] else case['dim']
-                rec = val(f.eval_vectorized(np.array(op[1], dtype=float).reshape((len(op[1]), d))))
+                rec = val(f(arg('points', op[2], op[1], lambda: _as_form(np, op[1], op[2], d, False))))
+            elif k == 'vec':
+                d = len(op[1][0]) if op[1] else case['dim']      # the same array object as a batch call in ndarray form
+                rec = val(f.eval_vectorized(arg('points', 'ndarray', op[1], lambda: np.array(op[1], dtype=float).reshape((len(op[1]), d)))))
             elif k == 'vecn':
-                rec = val(f.eval_vectorized(np.array(op[1], dtype=float)))
+                rec = val(f.eval_vectorized(arg('points', 'ndarray3', op[1], lambda: np.array(op[1], dtype=float))))
             elif k == 'reset':
                 r = f.reset_dictionary(); rec = {'st': 'ok', 'ret': repr(r)}
             elif k == 'deact':
@@ -712,6 +802,9 @@ def impl_cache(case):
                 cur = int(op[1]); f = objs[cur]; rec = {'st': 'ok'}
         except Exception as e:  # exceptions are observables; the sequence goes on
             rec = _exc_record(e)
+        changed = watch.check()
+        if changed:
+            rec['mutated'] = changed
         rec['obj'] = cur
         rec['size_after'] = int(f.get_f_dict_size())
         rec['sizes'] = [int(o.get_f_dict_size()) for o in objs]
@@ -830,10 +923,11 @@ def _component_specs(spec):
     return []
 
 
-def _analytic(f, a, b):
+def _analytic(f, a, b, scribble=False):
+    """getAnalyticSolutionIntegral(a, b) with the corner objects as given (NOT copied)."""
     import numpy as np
     try:
-        r = f.getAnalyticSolutionIntegral(list(a), list(b))
+        r = f.getAnalyticSolutionIntegral(a, b)
     except Exception as e:
         return {'st': 'exc', 'exc': type(e).__name__, 'msg': str(e)[:120]}
     if r is None:
@@ -842,6 +936,8 @@ def _analytic(f, a, b):
         vals = [float(x) for x in np.atleast_1d(np.asarray(r, dtype=float)).ravel()]
     except Exception as e:
         return {'st': 'exc', 'exc': 'NotANumber:' + type(e).__name__, 'msg': repr(r)[:120]}
+    if scribble and isinstance(r, np.ndarray) and r.ndim and r.size and r.flags.writeable:
+        r[...] = SENTINEL
     return {'st': 'ok', 'vals': vals}
 
 
@@ -959,13 +1055,14 @@ def _numeric_highdim(spec, evalrows, a, b, d):
     return {'vals': [vals[1]], 'err': abs(vals[0] - vals[1]), 'rough': False, 'n': 56, 'midpoint': False, 'highdim': 'separable-product'}
 
 
-def _point_record(f, spec, p):
-    """eval of a fresh instance; single and batch call on the history object f"""
+def _point_record(f, spec, p, P=None):
+    """eval of a fresh instance; single and batch call on the history object f (P: the caller's point object, reused)"""
     import numpy as np
+    P = tuple(p) if P is None else P
     try:
         ev = _norm_value(build(spec).eval(tuple(p)))
-        one = [float(x) for x in np.asarray(f(tuple(p)), dtype=float).ravel()]
-        bat = [float(x) for x in np.asarray(f([tuple(p)]), dtype=float).ravel()]
+        one = [float(x) for x in np.asarray(f(P), dtype=float).ravel()]
+        bat = [float(x) for x in np.asarray(f([P]), dtype=float).ravel()]
         return {'st': 'ok', 'eval': ev, 'call': one, 'batch': bat}
     except Exception as e:
         return {'st': 'exc', 'exc': type(e).__name__}
@@ -974,16 +1071,46 @@ def _point_record(f, spec, p):
 def impl_integral(case):
     import numpy as np
     spec = case['fn']
-    f = build(spec)                      # THE object of the history
+    watch = Watch()
+    cform, bform, scribble = case.get('cform', 'list'), case.get('bform', 'list'), bool(case.get('scribble'))
+    f = build(spec, watch, cform)                      # THE object of the history
+    cspecs = case.get('companions', [])
+    comps = [build(s_, watch, cform) for s_ in cspecs]   # other functions integrated over the SAME corner objects
     olen = int(f.output_length())
-    res = {'boxes': [], 'points': [], 'points_after': [], 'olen': olen}
+    res = {'boxes': [], 'points': [], 'points_after': [], 'olen': olen, 'mutated_by_evaluation': []}
+    shared = {}
+
+    def corner(v, what):
+        """one object per distinct corner / point value, reused by every call of the history"""
+        key = (what, tuple(v))
+        if key not in shared:
+            if bform == 'ndarray' or (bform == 'intarray' and not _integral_pt(v)):
+                o = np.array(v, dtype=float)
+            elif bform == 'intarray':
+                o = np.array([int(x) for x in v], dtype=int)
+            else:
+                o = tuple(v) if (bform == 'tuple' or what == 'point') else list(v)
+            shared[key] = watch.add('%s(%s)' % (what, bform), o)
+        return shared[key]
     for p in case['points']:
-        res['points'].append(_point_record(f, spec, p))
+        res['points'].append(_point_record(f, spec, p, corner(p, 'point')))
+    res['mutated_by_evaluation'] += watch.check()
     for a, b in case['boxes']:
         d = len(a)
         exact_only = (spec['cls'] in POLY_CLASSES and d >= 4) or (spec['cls'] == 'GenzCornerPeak' and d >= 5)
         fresh = build(spec)
-        rec = {'analytic': _analytic(f, a, b), 'analytic_fresh': _analytic(build(spec), a, b), 'components': [], 'through': {}}
+        A, B = corner(a, 'box-corner'), corner(b, 'box-corner')
+        rec = {'analytic': _analytic(f, A, B, scribble), 'components': [], 'through': {}, 'companions': []}
+        rec['mutated'] = watch.check()
+        for g, gs in zip(comps, cspecs):
+            if len(a) != case['dim']:
+                continue
+            cr = {'cls': gs['cls'], 'shared': _analytic(g, A, B, scribble)}
+            cr['mutated'] = watch.check()
+            cr['fresh'] = _analytic(build(gs), list(a), list(b))
+            rec['companions'].append(cr)
+        rec['analytic_fresh'] = _analytic(build(spec), list(a), list(b))
+        a, b = list(a), list(b)
         if d >= 5 and not exact_only:
             rec['numeric'] = _numeric_highdim(spec, lambda P: [fresh.eval(tuple(float(x) for x in row)) for row in P], a, b, d)
             if rec['numeric'] is not None and math.isfinite(rec['numeric']['err']):
@@ -1012,7 +1139,8 @@ def impl_integral(case):
                     rec['through'][path] = _exc_record(e)
         res['boxes'].append(rec)
     for p in case['points']:
-        res['points_after'].append(_point_record(f, spec, p))
+        res['points_after'].append(_point_record(f, spec, p, corner(p, 'point')))
+    res['mutated_by_evaluation'] += watch.check()
     return res
 
 
@@ -1136,6 +1264,7 @@ def oracle_cache(case, r):
     seen = [set() for _ in specs]
     on = [True] * len(specs)
     dims_seen = [set() for _ in specs]
+    writer = [dict() for _ in specs]
     cur = 0
     for oi, tab in enumerate(tabs):
         if any(v and v[0] != 'exc' and len(v) != olens[oi] for v in tab.values()):
@@ -1153,6 +1282,10 @@ def oracle_cache(case, r):
         k = op[0]
         if k == 'obj':
             cur = int(op[1])
+        if i.get('mutated'):
+            m0 = i['mutated'][0]
+            bad.append(('argument-mutated', {'op': k, 'argument': m0['argument'].split(':')[0].split('(')[0], 'container': m0['container']}, step,
+                        'the call changed an argument object of the caller: %s' % (i['mutated'][:3],)))
         olen = olens[cur]
         cls = specs[cur]['cls']
         ev = lambda p: tabs[cur][_key(p)]
@@ -1187,18 +1320,35 @@ def oracle_cache(case, r):
             elif not close_list([x for w in want for x in w], i['vals']):
                 got, exp = i['vals'], [x for w in want for x in w]
                 j = next((j for j, (x, y) in enumerate(zip(got, exp)) if not close(x, y)), 0)
-                bad.append(('value-differs', {'op': k, 'cache_on': on[cur], 'other_dimension_before': xdim,
-                                              'several_objects': len(specs) > 1, 'big': len(pts) >= 64}, step,
-                            'component %d of %d: returned %r, direct eval of a fresh instance %r' % (j, len(exp), got[j], exp[j])))
+                if got[j] == SENTINEL:
+                    # the value the caller wrote into an array RETURNED by an earlier call comes back: that array aliases internal state
+                    pj = _key(pts[min(j // max(olen, 1), len(pts) - 1)])
+                    src = writer[cur].get(pj, '?')
+                    bad.append(('result-aliases-internal-state', {'result_of': src, 'read_by': k, 'cache_on': on[cur]}, step,
+                                'the array returned by an earlier %s call was overwritten by the caller with %r; this %s call now returns that value (direct eval %r)'
+                                % (src, SENTINEL, k, exp[j])))
+                else:
+                    bad.append(('value-differs', {'op': k, 'cache_on': on[cur], 'other_dimension_before': xdim,
+                                                  'several_objects': len(specs) > 1, 'big': len(pts) >= 64}, step,
+                                'component %d of %d: returned %r, direct eval of a fresh instance %r' % (j, len(exp), got[j], exp[j])))
             if k in ('single', 'batch') and i['st'] == 'ok' and (on[cur] or k == 'batch'):
                 for p in pts:
+                    if k == 'batch' or _key(p) not in seen[cur]:
+                        writer[cur][_key(p)] = k              # which call wrote the dictionary entry of the point
                     seen[cur].add(_key(p))
         elif i['st'] != 'ok':
             bad.append(('call-raises', {'exc': i['exc'], 'op': k, 'cache_on': on[cur], 'empty': False, 'big': False}, step, i.get('msg')))
         elif k == 'reset':
             seen[cur] = set()
+            writer[cur] = {}
         elif k == 'deact':
             on[cur] = False
+        if not any(b_[0] == 'result-aliases-internal-state' for b_ in bad) and any(SENTINEL in v for _k, v in i.get('dict', [])):
+            kk = next(tuple(k_) for k_, v in i['dict'] if SENTINEL in v)
+            src = writer[cur].get(kk, '?')
+            bad.append(('result-aliases-internal-state', {'result_of': src, 'read_by': 'f_dict', 'cache_on': on[cur]}, step,
+                        'the array returned by a %s call was overwritten by the caller with %r; the evaluation dictionary now holds that value for the point %s'
+                        % (src, SENTINEL, list(kk))))
         if any(b_[0] == 'counter-differs' for b_ in bad):
             pass                    # the counter is reported once per case (a wrong dictionary stays wrong)
         elif on[cur] and i['size_after'] != len(seen[cur]):
@@ -1226,7 +1376,7 @@ def _same_failure(b, kind, sig):
     """Shrinking keeps the kind of the violation and the structural part of its signature (operation, caching state)."""
     if b[0] != kind:
         return False
-    return sig is None or all(b[1].get(k) == sig.get(k) for k in ('op', 'cache_on', 'exc', 'cls', 'other_object'))
+    return sig is None or all(b[1].get(k) == sig.get(k) for k in ('op', 'cache_on', 'exc', 'cls', 'other_object', 'result_of', 'read_by', 'argument'))
 
 
 def shrink_cache(case, kind, step, key=None, sig=None):
@@ -1348,6 +1498,8 @@ CORPUS_CACHE = [
     {'kind': 'cache', 'fn': {'cls': 'GenzDiscontinious2', 'p': {'coeffs': [1.0, 1.0], 'border': [0.5, 0.5]}}, 'dim': 2,
      'ops': [['single', [0.25, 0.25], 'tuple']]},
     {'kind': 'cache', 'fn': {'cls': 'FunctionCantileverBeamD', 'p': {}}, 'dim': 3, 'ops': [['single', [1.0, 2.0, 3.0], 'tuple']]},
+    {'kind': 'cache', 'fn': {'cls': 'GenzGaussian', 'p': {'coeffs': [1.0, 2.0], 'mid': [0.5, 0.5]}}, 'dim': 2,
+     'ops': [['batch', [[0.25, 0.5], [0.5, 0.5]], 'tuple'], ['single', [0.25, 0.5], 'tuple']], 'cform': 'list', 'scribble': True},
     # regression: batch then single hit, reset, repeated, size
     {'kind': 'cache', 'fn': {'cls': 'GenzCornerPeak', 'p': {'coeffs': [1.0, 2.0]}}, 'dim': 2,
      'ops': [['batch', [[0.5, 0.25], [1.0, 1.0], [0.5, 0.25]], 'tuple'], ['size'], ['single', [1.0, 1.0], 'tuple'], ['reset'], ['size'],
@@ -1366,6 +1518,10 @@ CORPUS_CACHE = [
      'ops': [['single', [0.5], 'tuple'], ['single', [1.5], 'list'], ['batch', [[0.5], [1.5]], 'tuple'], ['batch', [[1.5], [0.5]], 'ndarray']]},
 ]
 CORPUS_INTEGRAL = [
+    {'kind': 'integral', 'fn': {'cls': 'FunctionCompose', 'p': {'fs': [[{'cls': 'GenzDiscontinious', 'p': {'coeffs': [1.0, 2.0], 'border': [0.5, 0.5]}}, 1.0],
+                                                                        [{'cls': 'GenzGaussian', 'p': {'coeffs': [2.0, 3.0], 'mid': [0.5, 0.5]}}, 0.5]]}},
+     'dim': 2, 'boxes': [[[0.0, 0.0], [1.0, 1.0]], [[0.0, 0.0], [1.0, 0.75]]], 'points': [[0.25, 0.25]], 'bform': 'ndarray', 'cform': 'ndarray',
+     'companions': [{'cls': 'GenzC0', 'p': {'coeffs': [1.0, 2.0], 'mid': [0.5, 0.5]}}]},
     {'kind': 'integral', 'fn': {'cls': 'ConstantValue', 'p': {'value': 2.5}}, 'dim': 2, 'boxes': [[[0.0, 0.0], [1.0, 2.0]]], 'points': [[0.5, 0.5]]},
     {'kind': 'integral', 'fn': {'cls': 'FunctionMultilinear', 'p': {'coeffs': [1.0, 2.0]}}, 'dim': 2, 'boxes': [[[0.0, 0.0], [2.0, 3.0]]],
      'points': [[0.5, 0.25]]},
@@ -1469,6 +1625,8 @@ def check_cache_cases(chk, cases):
         chk.count('cache:cls=' + cls); chk.count('cache:dim=%d' % c['dim'])
         chk.count('cache:pattern=' + c.get('pattern', 'random'))
         chk.count('cache:objects=%d' % len(specs))
+        chk.count('cache:constructor-sequences=%s' % c.get('cform', 'list'))
+        chk.count('cache:caller-overwrites-returned-arrays=%s' % bool(c.get('scribble')))
         dims = sorted(set(len(p) for op in c['ops'] for p in _op_points(op)))
         chk.count('cache:dimensions-on-one-case=%d' % len(dims))
         if len(dims) > 1:
@@ -1559,6 +1717,21 @@ def oracle_integral_history(case, r):
         xdim = bool(dims_before - {d})
         dims_before.add(d)
         an, af = rec['analytic'], rec['analytic_fresh']
+        if rec.get('mutated'):
+            m0 = rec['mutated'][0]
+            bad.append(('argument-mutated', {'op': 'getAnalyticSolutionIntegral', 'argument': m0['argument'].split(':')[0].split('(')[0],
+                                             'container': m0['container'], 'cls': cls}, hist, dict(box=[a, b], changed=rec['mutated'][:3])))
+        for cr in rec.get('companions', []):
+            if cr.get('mutated'):
+                m0 = cr['mutated'][0]
+                bad.append(('argument-mutated', {'op': 'getAnalyticSolutionIntegral', 'argument': m0['argument'].split(':')[0].split('(')[0],
+                                                 'container': m0['container'], 'cls': cr['cls']}, hist, dict(box=[a, b], changed=cr['mutated'][:3])))
+            sh, fr = cr['shared'], cr['fresh']
+            if not (fr['st'] == 'ok' and finite(fr['vals'])):
+                continue            # the companion is not defined on this box (container-dependent nan / complex power / division by zero)
+            if sh['st'] != 'ok' or not close_list(sh['vals'], fr['vals'], 1e-12, 1e-13):
+                bad.append(('analytic-integral-depends-on-argument-identity', {'cls': cr['cls'], 'after': cls}, hist,
+                            dict(box=[a, b], with_the_corner_objects_used_before=sh, with_fresh_copies=fr)))
         if an['st'] != af['st'] or (an['st'] == 'ok' and not close_list(an['vals'], af['vals'], 1e-12, 1e-13)):
             bad.append(('analytic-integral-history-dependent', {'cls': cls, 'other_dimension_before': xdim}, hist,
                         dict(box=[a, b], on_history_object=an, on_fresh_object=af)))
@@ -1574,6 +1747,10 @@ def oracle_integral_history(case, r):
                 bad.append(('integral-of-evaluations-differs', {'cls': cls, 'path': path, 'other_dimension_before': xdim}, hist,
                             dict(box=[a, b], quadrature_of_object_evaluations=th['vals'], quadrature_of_fresh_scalar_eval=nu['vals'],
                                  analytic=an.get('vals'), points=th['npoints'])))
+    if r.get('mutated_by_evaluation'):
+        m0 = r['mutated_by_evaluation'][0]
+        bad.append(('argument-mutated', {'op': 'call', 'argument': m0['argument'].split(':')[0].split('(')[0], 'container': m0['container'], 'cls': cls},
+                    case, dict(changed=r['mutated_by_evaluation'][:3])))
     for phase in ('points', 'points_after'):
         for p, pr in zip(case['points'], r[phase]):
             if pr['st'] == 'ok' and finite(pr['eval']) and not (close_list(pr['call'], pr['eval']) and close_list(pr['batch'], pr['eval'])):
@@ -1617,6 +1794,9 @@ def check_integral_cases(chk, cases):
         for d in sorted(set(bdims)):
             chk.count('integral:dim=%d' % d)
         chk.count('integral:dimensions-on-one-object=%d' % len(set(bdims)))
+        chk.count('integral:corner-objects=%s' % c.get('bform', 'list'))
+        chk.count('integral:companions-on-the-same-corner-objects=%d' % len(c.get('companions', [])))
+        chk.count('integral:constructor-sequences=%s' % c.get('cform', 'list'))
         chk.count('integral:boxes-on-one-object=%d' % len(bdims))
         for j, (a, b) in enumerate(c['boxes']):
             if any(x == y for x, y in zip(a, b)):
